@@ -52,7 +52,7 @@ func c18(c *wk.Ctx) {
 // c18split: (password, salt1, salt2) triples with identical concatenation but different boundaries, checked one
 // after the other in the same process (a memoised x keyed without boundaries would confuse them).
 func c18split(c *wk.Ctx, idx int, r *mrand.Rand, p *big.Int) {
-	base := []byte(randWord(r) + randWord(r) + randWord(r) + randWord(r))
+	base := []byte(randWord(r) + randWord(r) + randWord(r) + randWord(r) + "0123456789ab")
 	cuts := [][2]int{{4, 8}, {5, 8}, {4, 9}, {0, 8}, {4, 4}, {len(base), len(base)}, {6, 6}}
 	for _, ct := range cuts {
 		pw, s1, s2 := string(base[:ct[0]]), base[ct[0]:ct[1]], base[ct[1]:]
